@@ -924,6 +924,23 @@ def r104(ctx, rid="R-10.4"):
         lm_set = ("lambda_minus_one is not False", True) in facts or ("lambda_minus_one is False", False) in facts
         lm_unset = ("lambda_minus_one is not False", False) in facts or ("lambda_minus_one is False", True) in facts
         if not (lm_set or lm_unset):
+            # the boundary chosen once by a conditional expression:
+            #   left = interfaces[0] if lambda_minus_one is False else lambda_minus_one
+            def _chosen(b, _at=cfg.node_of(r)):
+                if isinstance(b, ast.Name):
+                    b, _ = deref(fl, b, _at)
+                if not (isinstance(b, ast.IfExp) and isinstance(b.test, ast.Compare) and len(b.test.ops) == 1 and ast.unparse(b.test.left) == "lambda_minus_one"
+                        and isinstance(b.test.comparators[0], ast.Constant) and b.test.comparators[0].value is False and isinstance(b.test.ops[0], (ast.Is, ast.IsNot))):
+                    return False
+                when_set, when_unset = (b.body, b.orelse) if isinstance(b.test.ops[0], ast.IsNot) else (b.orelse, b.body)
+                return ast.unparse(when_set).replace(" ", "") == "lambda_minus_one" and ast.unparse(when_unset).replace(" ", "") == "interfaces[0]"
+            res = _one_zero(ctx, rid, v.elts[0], fl, cfg.node_of(r), "path", _chosen, "[0-] weight")
+            if res is not None and res[0]:
+                ctx.ok(rid, r, "[0-]: (1,) iff the path reaches lambda_-1 when it is set (`is not False`), else interfaces[0] (boundary chosen by a conditional expression)")
+                continue
+            if res is not None:
+                ctx.bad(rid, r, res[1], construct=short(r, 60))
+                continue
             ctx.bad(rid, r, "the [0-] weight does not distinguish `lambda_minus_one is not False` (0.0 is a legal lambda_-1: a truthiness test would take it for unset)", construct=short(r, 60))
             continue
         want = "lambda_minus_one" if lm_set else "interfaces[0]"
@@ -1357,6 +1374,8 @@ _SCAN_EMIT = "            path_arr.append((isave, i + 1, i - isave))"
 _JUMP = "        if (op1 < left and op2 >= right) or (op2 < left and op1 >= right):\n            pass\n        elif op2 >= left > op1 and not key_l:"
 
 VARIANTS = [
+    B("c10-wf-triple-starts-at-lambda-minus-one", "infretis/core/tis.py", "    cv = []\n    if minus:\n        if lambda_minus_one is not False:\n            return (1.0 if lambda_minus_one <= path_max else 0.0,)\n        else:\n            return (1.0 if interfaces[0] <= path_max else 0.0,)\n", "    left = interfaces[0] if lambda_minus_one is False else lambda_minus_one\n\n    cv = []\n    if minus:\n        return (1.0 if left <= path_max else 0.0,)\n", "R-10.4", control=True, also=[("infretis/core/tis.py", "            intfs = [interfaces[0], intf_i, intf_cap]\n            cv.append(compute_weight(path, intfs, moves[idx + 1]))", "            intfs = [left, intf_i, intf_cap]\n            cv.append(compute_weight(path, intfs, moves[idx + 1]))")], why="seeded C10_j"),
+    K("c10-keep-minus-boundary-computed-once", "infretis/core/tis.py", "    cv = []\n    if minus:\n        if lambda_minus_one is not False:\n            return (1.0 if lambda_minus_one <= path_max else 0.0,)\n        else:\n            return (1.0 if interfaces[0] <= path_max else 0.0,)\n", "    left = interfaces[0] if lambda_minus_one is False else lambda_minus_one\n\n    cv = []\n    if minus:\n        return (1.0 if left <= path_max else 0.0,)\n", why="the [0-] branch of seed C10_j alone is an equivalent rewrite"),
     B("c10-scan-reads-flattened-order-vectors", TIS, "    for i in range(len(path.phasepoints[:-1])):\n        op1 = path.phasepoints[i].order[0]\n        op2 = path.phasepoints[i + 1].order[0]\n", "    orders = np.ravel([pp.order for pp in path.phasepoints])\n    for i in range(len(path.phasepoints[:-1])):\n        op1, op2 = orders[i], orders[i + 1]\n", "R-10.1", control=True, why="seeded C10_h"),
     K("c10-keep-scan-reads-hoisted-first-components", TIS, "    for i in range(len(path.phasepoints[:-1])):\n        op1 = path.phasepoints[i].order[0]\n        op2 = path.phasepoints[i + 1].order[0]\n", "    orders = [pp.order[0] for pp in path.phasepoints]\n    for i in range(len(path.phasepoints[:-1])):\n        op1, op2 = orders[i], orders[i + 1]\n"),
     B("c10-selection-sums-span-not-count", TIS, "        for ipath in path_arr:\n            sum_frames += ipath[2]\n", "        for ipath in path_arr:\n            sum_frames += ipath[1] - ipath[0]\n", "R-10.3", control=True, why="seeded C10_g"),
